@@ -1,1 +1,727 @@
-(* C16 - to be filled *)
+(* C16 - proofs.  For every record kind: [serde_ok_X x && is_ok (parse_X x) = valid_X x] (the structural checks
+   of serde followed by `unserialize` succeed exactly on the documented-valid inputs), assembled into
+   [is_ok (parse d) = valid d].  The monadic chains are turned into the conjunction of their steps' conditions
+   by [okb]/[ok_norm]; the remaining goal is a boolean tautology over opaque atoms ([btauto]). *)
+From Slinky Require Import Model.Types Model.Generated Model.Parse Spec.C08 Spec.C16 Proofs.C08.
+From Coq Require Import Btauto Lia.
+
+(* ---------- values and success of the elementary steps ---------- *)
+
+Definition an_opt {A} (x : an A) : option A := match x with Value v => Some v | _ => None end.
+Definition an_or {A} (x : an A) (d : A) : A := match x with Value v => v | _ => d end.
+
+Lemma val_gnn {A} (x : an A) n d a : get_non_null x n d = Ok a -> a = an_or x d.
+Proof. destruct x; cbn; intro H; inversion H; reflexivity. Qed.
+Lemma val_gnnnd {A} (x : an A) n a : get_non_null_no_default x n = Ok a -> a = an_opt x.
+Proof. destruct x; cbn; intro H; inversion H; reflexivity. Qed.
+Lemma val_gon {A} (x : an A) d a : get_optional_nullable x d = Ok a -> a = resolve_nullable x d.
+Proof. destruct x; cbn; intro H; inversion H; reflexivity. Qed.
+Lemma is_some_an_opt {A} (x : an A) : is_some (an_opt x) = has_value x.
+Proof. destruct x; reflexivity. Qed.
+
+Lemma ok_gnn {A} (x : an A) n d : is_ok (get_non_null x n d) = not_null x.
+Proof. destruct x; reflexivity. Qed.
+Lemma ok_gnnnd {A} (x : an A) n : is_ok (get_non_null_no_default x n) = not_null x.
+Proof. destruct x; reflexivity. Qed.
+Lemma ok_gon {A} (x : an A) d : is_ok (get_optional_nullable x d) = true.
+Proof. destruct x; reflexivity. Qed.
+Lemma ok_req {A} (x : an A) n : is_ok (get_required x n) = has_value x.
+Proof. destruct x; reflexivity. Qed.
+Lemma ok_nel (x : an pairs) n : is_ok (get_non_null_not_empty_list x n) = valid_cond_list x.
+Proof. destruct x as [| |[|p l]]; reflexivity. Qed.
+Lemma ok_forbid {A B} (x : an A) a b (v : B) : is_ok (do _ <- forbid x a b; Ok v) = negb (has_value x).
+Proof. unfold forbid. destruct (has_value x); reflexivity. Qed.
+Lemma ok_combo a b f1 f2 : is_ok (combo a b f1 f2) = negb (a && b).
+Proof. unfold combo. destruct (a && b); reflexivity. Qed.
+Lemma ok_if_err (c : bool) e : is_ok (if c then Err e else Ok tt) = negb c.
+Proof. destruct c; reflexivity. Qed.
+
+Lemma is_ok_bind_split {A B} (r : res A) (f : A -> res B) b1 b2 :
+  is_ok r = b1 -> (forall a, r = Ok a -> is_ok (f a) = b2) -> is_ok (bind r f) = b1 && b2.
+Proof. intros <- H. destruct r; cbn; [apply (H a eq_refl) | reflexivity]. Qed.
+
+Ltac step_ok :=
+  first [ apply ok_gnn | apply ok_gnnnd | apply ok_gon | apply ok_req | apply ok_nel | apply ok_forbid
+        | apply ok_combo | apply ok_if_err | reflexivity ].
+
+Ltac use_eq a E :=
+  first [ apply val_gnn in E; subst a | apply val_gnnnd in E; subst a | apply val_gon in E; subst a | clear E ].
+
+(* turns [is_ok (do x <- e1; do y <- e2; ... Ok _) = ?b] into the conjunction of the steps' conditions;
+   a bound value is replaced by its expression in terms of the serial field when it has one *)
+Ltac okb :=
+  cbn [bind];
+  lazymatch goal with
+  | |- is_ok (bind ?r ?f) = _ =>
+      apply is_ok_bind_split; [ step_ok | let a := fresh "a" in let E := fresh "E" in intros a E; use_eq a E; okb ]
+  | |- is_ok (Ok _) = _ => cbn [is_ok]; reflexivity
+  | |- _ => reflexivity
+  end.
+
+Ltac ok_norm :=
+  match goal with
+  | |- context [is_ok ?e] =>
+      lazymatch e with
+      | bind _ _ =>
+          let Hb := fresh "Hb" in
+          eassert (Hb : is_ok e = _) by okb; rewrite Hb; clear Hb; cbv beta
+      end
+  end.
+
+Lemma conds_ok c : is_ok (parse_conds c) = valid_conds c.
+Proof. destruct c as [c1 c2 c3 c4]. unfold parse_conds, valid_conds. cbn [cs_inc_any cs_inc_all cs_exc_any cs_exc_all].
+  ok_norm. btauto. Qed.
+
+
+Ltac step_ok ::=
+  first [ apply ok_gnn | apply ok_gnnnd | apply ok_gon | apply ok_req | apply ok_nel | apply ok_forbid
+        | apply ok_combo | apply ok_if_err | apply conds_ok | reflexivity ].
+
+(* ---------- gp_info ---------- *)
+Lemma gp_ok g : serde_ok_gp g && is_ok (parse_gp g) = valid_gp g.
+Proof.
+  destruct g as [u se off pr hi c]. unfold serde_ok_gp, parse_gp, valid_gp, no_unknown, no_unknown_keys.
+  cbn [gs_unknown gs_section gs_offset gs_provide gs_hidden gs_conds].
+  destruct se as [| |s]; cbn [get_non_null bind not_null is_null negb if_given andb].
+  - change (is_empty gp_info_default_section) with false. cbn iota. ok_norm. btauto.
+  - cbn. btauto.
+  - unfold nonempty_str. destruct (is_empty s); cbn [negb bind is_ok].
+    + btauto.
+    + ok_norm. btauto.
+Qed.
+
+Lemma gp_section_val g g' : parse_gp g = Ok g' -> gp_section g' = gp_effective_section g.
+Proof.
+  destruct g as [u se off pr hi c]. unfold parse_gp, gp_effective_section.
+  cbn [gs_unknown gs_section gs_offset gs_provide gs_hidden gs_conds]. intro H.
+  inv_bind H. injection H as <-. cbn [gp_section].
+  destruct se as [| |s]; cbn in E; try discriminate; injection E as <-;
+  cbn in E0; [ injection E0 as <-; reflexivity | destruct (is_empty s); [discriminate | injection E0 as <-; reflexivity] ].
+Qed.
+
+(* ---------- vram classes ---------- *)
+Lemma class_ok c : is_null (vs_name c) = false -> serde_ok_class c && is_ok (parse_class c) = valid_class c.
+Proof.
+  destruct c as [u n fv fs fo k]. unfold serde_ok_class, parse_class, valid_class, no_unknown, no_unknown_keys, skeep_ok, keep_well_typed.
+  cbn [vs_unknown vs_name vs_fixed_vram vs_fixed_symbol vs_follows_classes vs_keep]. intro Hn.
+  ok_norm.
+  destruct n as [| |n]; [ cbn; btauto | discriminate Hn | ].
+  destruct fv, fs, fo as [| |[|x l]]; cbn; unfold nonempty_str; btauto.
+Qed.
+
+(* ---------- symbol assignments, required symbols, asserts ---------- *)
+Lemma assign_ok a : is_null (as_name a) = false -> is_null (as_value a) = false ->
+  serde_ok_assign a && is_ok (parse_assign a) = valid_assign a.
+Proof.
+  destruct a as [u n v pr hi c]. unfold serde_ok_assign, parse_assign, valid_assign, no_unknown, no_unknown_keys.
+  cbn [as_unknown as_name as_value as_provide as_hidden as_conds]. intros Hn Hv.
+  ok_norm.
+  destruct n as [| |n]; [ cbn; btauto | discriminate Hn | ].
+  destruct v as [| |v]; [ cbn; btauto | discriminate Hv | ].
+  cbn; unfold nonempty_str; btauto.
+Qed.
+
+Lemma required_ok r : is_null (rs_name r) = false -> serde_ok_required r && is_ok (parse_required r) = valid_required r.
+Proof.
+  destruct r as [u n c]. unfold serde_ok_required, parse_required, valid_required, no_unknown, no_unknown_keys.
+  cbn [rs_unknown rs_name rs_conds]. intros Hn.
+  ok_norm.
+  destruct n as [| |n]; [ cbn; btauto | discriminate Hn | ].
+  cbn; unfold nonempty_str; btauto.
+Qed.
+
+Lemma assert_ok a : is_null (ats_check a) = false -> is_null (ats_error_message a) = false ->
+  serde_ok_assert a && is_ok (parse_assert a) = valid_assert a.
+Proof.
+  destruct a as [u n v c]. unfold serde_ok_assert, parse_assert, valid_assert, no_unknown, no_unknown_keys.
+  cbn [ats_unknown ats_check ats_error_message ats_conds]. intros Hn Hv.
+  ok_norm.
+  destruct n as [| |n]; [ cbn; btauto | discriminate Hn | ].
+  destruct v as [| |v]; [ cbn; btauto | discriminate Hv | ].
+  cbn; unfold nonempty_str; btauto.
+Qed.
+
+(* ---------- settings ---------- *)
+Lemma settings_ok s : serde_ok_settings s && is_ok (parse_settings s) = valid_settings s.
+Proof.
+  destruct s. unfold serde_ok_settings, parse_settings, valid_settings, no_unknown, no_unknown_keys.
+  proj_goal.
+  ok_norm. unfold an_ok, if_given.
+  destruct sts_d_path, sts_target_path;
+    cbn [resolve_nullable is_some settings_default_d_path settings_default_target_path implb has_value negb andb]; btauto.
+Qed.
+
+(* ---------- file entries ---------- *)
+
+Definition all_sub (P : file_serial -> Prop) (files : an (list file_serial)) : Prop :=
+  match files with Value l => Forall P l | _ => True end.
+
+Section FileInd.
+  Variable P : file_serial -> Prop.
+  Hypothesis step : forall u p k sf pa se lon so files d c kp,
+    all_sub P files ->
+    P (FileSerial u p k sf pa se lon so files d c kp).
+  Fixpoint file_serial_ind' (f : file_serial) : P f :=
+    match f with
+    | FileSerial u p k sf pa se lon so files d c kp =>
+        step u p k sf pa se lon so files d c kp
+          (match files as fl return all_sub P fl with
+           | Value l =>
+               (fix go (l : list file_serial) : Forall P l :=
+                  match l with
+                  | [] => Forall_nil P
+                  | x :: r => Forall_cons x (file_serial_ind' x) (go r)
+                  end) l
+           | Absent => I
+           | Null => I
+           end)
+    end.
+End FileInd.
+
+Lemma is_ok_map_res {A B} (f : A -> res B) l : is_ok (map_res f l) = forallb (fun x => is_ok (f x)) l.
+Proof.
+  induction l as [|x l IH]; [reflexivity|]. cbn [map_res forallb].
+  destruct (f x); cbn [bind is_ok andb]; [|reflexivity].
+  rewrite <- IH. destruct (map_res f l); reflexivity.
+Qed.
+
+Lemma forallb_and {A} (f g : A -> bool) l : forallb (fun x => f x && g x) l = forallb f l && forallb g l.
+Proof. induction l as [|x l IH]; [reflexivity|]. cbn [forallb]. rewrite IH. btauto. Qed.
+
+Lemma forallb_ext_Forall {A} (f g : A -> bool) l : Forall (fun x => f x = g x) l -> forallb f l = forallb g l.
+Proof. induction 1; [reflexivity|]. cbn [forallb]. congruence. Qed.
+
+Lemma list_ok {A B} (serde : A -> bool) (p : A -> res B) (v : A -> bool) l :
+  Forall (fun x => serde x && is_ok (p x) = v x) l ->
+  forallb serde l && is_ok (map_res p l) = forallb v l.
+Proof.
+  intro H. rewrite is_ok_map_res, <- forallb_and. apply forallb_ext_Forall. exact H.
+Qed.
+
+Lemma inner_fix l :
+  (fix go (l : list file_serial) : res (list file_info) :=
+     match l with
+     | [] => Ok []
+     | x :: r => do y <- parse_file x; do ys <- go r; Ok (y :: ys)
+     end) l = map_res parse_file l.
+Proof. induction l as [|x l IH]; [reflexivity|]. cbn [map_res]. rewrite IH. reflexivity. Qed.
+
+Lemma kind_from_path_cases p : kind_from_path p = KObject \/ kind_from_path p = KArchive.
+Proof. unfold kind_from_path. destruct (extension_of p) as [e|]; [destruct (String.eqb e "a")|]; auto. Qed.
+
+Lemma meets_required {A} (x : an A) : meets Required x = has_value x. Proof. destruct x; reflexivity. Qed.
+Lemma meets_optional {A} (x : an A) : meets Optional x = not_null x. Proof. destruct x; reflexivity. Qed.
+Lemma meets_forbidden {A} (x : an A) : meets Forbidden x = negb (has_value x). Proof. destruct x; reflexivity. Qed.
+
+Ltac fold_all :=
+  change ((fix all (l : list file_serial) {struct l} : bool :=
+             match l with [] => true | x :: r => valid_file x && all r end)) with (forallb valid_file) in *;
+  change ((fix all (l : list file_serial) {struct l} : bool :=
+             match l with [] => true | x :: r => serde_ok_file x && all r end)) with (forallb serde_ok_file) in *.
+
+(* the kind is known: the rest of the entry, field by field *)
+Ltac file_case files IH :=
+  cbn [is_archive is_pad is_offset is_group is_objlike file_kind_eqb orb
+       rule_path rule_subfile rule_pad_amount rule_section rule_linker_offset_name rule_section_order
+       rule_files rule_dir];
+  destruct files as [| |l]; try rewrite inner_fix;
+  ok_norm; rewrite ?meets_required, ?meets_optional, ?meets_forbidden;
+  unfold an_ok, if_given, no_unknown, no_unknown_keys, skeep_ok, keep_well_typed;
+  try (rewrite <- (list_ok _ _ _ l IH));
+  cbn [has_value not_null is_null negb is_ok]; btauto.
+
+Lemma file_ok : forall f, serde_ok_file f && is_ok (parse_file f) = valid_file f.
+Proof.
+  apply file_serial_ind'. intros u p k sf pa se lon so files d c kp IH. unfold all_sub in IH.
+  cbn [parse_file serde_ok_file valid_file]. unfold effective_kind, kind_table.
+  cbn [fs_unknown fs_path fs_kind fs_subfile fs_pad_amount fs_section fs_linker_offset_name fs_section_order fs_files fs_dir fs_conds fs_keep].
+  fold_all.
+  destruct k as [| |k].
+  - (* kind omitted: path required, kind guessed *)
+    cbn [get_non_null_no_default bind].
+    destruct p as [| |p]; cbn [get_required bind is_ok]; [btauto | btauto |].
+    cbn [if_given]. unfold nonempty_str. destruct (is_empty p) eqn:Ep; cbn [bind is_ok negb]; [btauto|].
+    destruct (kind_from_path_cases p) as [Ek|Ek]; rewrite Ek; file_case files IH.
+  - cbn [get_non_null_no_default bind is_ok]. btauto.
+  - cbn [get_non_null_no_default bind].
+    destruct k; cbn [is_objlike file_kind_eqb orb].
+    + destruct p as [| |p]; cbn [get_required bind is_ok rule_path meets]; [btauto | btauto |].
+      cbn [if_given]. unfold nonempty_str. destruct (is_empty p) eqn:Ep; cbn [bind is_ok negb]; [btauto|].
+      file_case files IH.
+    + destruct p as [| |p]; cbn [get_required bind is_ok rule_path meets]; [btauto | btauto |].
+      cbn [if_given]. unfold nonempty_str. destruct (is_empty p) eqn:Ep; cbn [bind is_ok negb]; [btauto|].
+      file_case files IH.
+    + destruct p as [| |p]; cbn [has_value bind is_ok rule_path meets]; [ | | btauto]; file_case files IH.
+    + destruct p as [| |p]; cbn [has_value bind is_ok rule_path meets]; [ | | btauto]; file_case files IH.
+    + destruct p as [| |p]; cbn [has_value bind is_ok rule_path meets]; [ | | btauto]; file_case files IH.
+Qed.
+
+(* ---------- segments ---------- *)
+
+Lemma ok_nonempty {A} (l : list A) e : is_ok (match l with [] => Err e | _ => Ok tt end) = nonempty_list l.
+Proof. destruct l; reflexivity. Qed.
+Lemma ok_if_ok (c : bool) e : is_ok (if c then Ok tt else Err e) = c.
+Proof. destruct c; reflexivity. Qed.
+
+Ltac step_ok ::=
+  first [ apply ok_gnn | apply ok_gnnnd | apply ok_gon | apply ok_req | apply ok_nel | apply ok_forbid
+        | apply ok_combo | apply ok_if_err | apply ok_if_ok | apply ok_nonempty | apply conds_ok | reflexivity ].
+
+Ltac okb ::=
+  cbn [bind an_opt an_or];
+  try (match goal with E : ?t = _ |- context [?t] => rewrite E end; cbn [bind]);
+  lazymatch goal with
+  | |- is_ok (bind ?r ?f) = _ =>
+      apply is_ok_bind_split; [ step_ok | let a := fresh "a" in let E := fresh "E" in intros a E; use_eq a E; okb ]
+  | |- is_ok (Ok _) = _ => cbn [is_ok]; reflexivity
+  | |- is_ok (Err _) = _ => cbn [is_ok]; reflexivity
+  | |- _ => reflexivity
+  end.
+
+Lemma link_hgp gs st : settings_link gs st ->
+  is_some (hardcoded_gp_value st) = has_value (global_field gs sts_hardcoded_gp_value).
+Proof.
+  destruct gs as [| |g]; cbn; [intros ->; reflexivity | contradiction | ].
+  intro H. rewrite (global_hardcoded_gp_value _ _ H). destruct (sts_hardcoded_gp_value g); reflexivity.
+Qed.
+Lemma link_alloc gs st : settings_link gs st ->
+  st_alloc_sections st = an_or (global_field gs sts_alloc_sections) doc_default_alloc_sections.
+Proof.
+  destruct gs as [| |g]; cbn; [intros ->; reflexivity | contradiction | ].
+  intro H. apply global_alloc_sections in H. destruct (sts_alloc_sections g); cbn in *; congruence.
+Qed.
+Lemma link_noload gs st : settings_link gs st ->
+  st_noload_sections st = an_or (global_field gs sts_noload_sections) doc_default_noload_sections.
+Proof.
+  destruct gs as [| |g]; cbn; [intros ->; reflexivity | contradiction | ].
+  intro H. apply global_noload_sections in H. destruct (sts_noload_sections g); cbn in *; congruence.
+Qed.
+
+Lemma mem_str_app x l1 l2 : mem_str x (l1 ++ l2) = mem_str x l1 || mem_str x l2.
+Proof. induction l1 as [|y l1 IH]; [reflexivity|]. cbn. destruct (String.eqb x y); [reflexivity | exact IH]. Qed.
+
+Lemma at_most_one a b c d :
+  Nat.leb (count_true [a; b; c; d]) 1 =
+  negb (a && b) && negb (a && c) && negb (a && d) && negb (b && c) && negb (b && d) && negb (c && d).
+Proof. destruct a, b, c, d; reflexivity. Qed.
+
+Lemma files_ok l : forallb serde_ok_file l && is_ok (map_res parse_file l) = forallb valid_file l.
+Proof. apply list_ok. apply Forall_forall. intros x _. apply file_ok. Qed.
+
+Ltac seg_finish n Hn :=
+  rewrite ?is_some_an_opt;
+  unfold an_ok, if_given, no_unknown, no_unknown_keys, skeep_ok, keep_well_typed, serde_ok_gp;
+  destruct n as [| |n]; [ | discriminate Hn | ];
+  cbn [plain_str opt_str is_some required_str not_null is_null negb andb is_ok]; unfold nonempty_str; btauto.
+
+Lemma segment_ok gs st s : settings_link gs st -> is_null (ss_name s) = false ->
+  serde_ok_segment s && is_ok (parse_segment st s) = valid_segment gs s.
+Proof.
+  intros L Hn.
+  destruct s as [u n fl fv fs fo vc dir gp c al nl sa ssa sea csa cea sssa ssea w fill sg kp].
+  unfold serde_ok_segment, parse_segment, valid_segment. proj_goal. cbn [ss_name] in Hn.
+  destruct fl as [l|]; [| cbn; btauto ]. cbn [opt_ok opt_list].
+  rewrite <- files_ok, at_most_one.
+  destruct gp as [| |g]; cbn [an_ok if_given].
+  - ok_norm. seg_finish n Hn.
+  - ok_norm. seg_finish n Hn.
+  - rewrite <- gp_ok. destruct (parse_gp g) as [g'|e] eqn:Eg.
+    + ok_norm. rewrite (gp_section_val _ _ Eg), (link_hgp _ _ L), (link_alloc _ _ L), (link_noload _ _ L), mem_str_app.
+      unfold effective_sections, an_or. seg_finish n Hn.
+    + ok_norm. seg_finish n Hn.
+Qed.
+
+(* ---------- the document ---------- *)
+
+Lemma list_ok_if {A B} (Q : A -> Prop) (serde : A -> bool) (p : A -> res B) (v : A -> bool) l :
+  (forall x, Q x -> serde x && is_ok (p x) = v x) -> Forall Q l ->
+  forallb serde l && is_ok (map_res p l) = forallb v l.
+Proof. intros H F. apply list_ok. induction F; constructor; auto. Qed.
+
+Lemma existsb_false_Forall {A} (f : A -> bool) l : existsb f l = false -> Forall (fun x => f x = false) l.
+Proof.
+  induction l as [|x l IH]; [constructor|]. cbn [existsb]. intro H.
+  apply orb_false_iff in H. destruct H as [H1 H2]. constructor; auto.
+Qed.
+
+Lemma an_ok_forallb {A} (f : A -> bool) (x : an (list A)) : an_ok (forallb f) x = forallb f (an_list x).
+Proof. destruct x; reflexivity. Qed.
+
+Lemma an_or_nil {A} (x : an (list A)) : an_or x [] = an_list x.
+Proof. reflexivity. Qed.
+
+Lemma is_ok_parse d : is_ok (parse d) = serde_ok d && is_ok (unserialize_document d).
+Proof. unfold parse. destruct (serde_ok d); reflexivity. Qed.
+
+Ltac proj_ds := cbn [ds_unknown ds_settings ds_vram_classes ds_segments ds_entry ds_symbol_assignments
+                     ds_required_symbols ds_asserts] in *.
+
+Lemma doc_ok d : Known_C16_null_plain_string d = false -> is_ok (parse d) = valid d.
+Proof.
+  intro K. unfold Known_C16_null_plain_string in K.
+  repeat (apply orb_false_iff in K; let K' := fresh "K" in destruct K as [K K']).
+  rewrite is_ok_parse.
+  destruct d as [u gs cl sg en asg rq ats]. unfold serde_ok, unserialize_document, valid. proj_ds.
+  destruct sg as [sl|]; [ | cbn; btauto]. cbn [opt_ok opt_list] in *.
+  rewrite !an_ok_forallb.
+  apply existsb_false_Forall in K, K0, K1, K2, K3.
+  rewrite <- (list_ok_if _ _ _ _ _ class_ok K3).
+  rewrite <- (list_ok_if _ _ parse_assign _ _ (fun a H => assign_ok a (proj1 (proj1 (orb_false_iff _ _) H)) (proj2 (proj1 (orb_false_iff _ _) H))) K2).
+  rewrite <- (list_ok_if _ _ _ _ _ required_ok K1).
+  rewrite <- (list_ok_if _ _ parse_assert _ _ (fun a H => assert_ok a (proj1 (proj1 (orb_false_iff _ _) H)) (proj2 (proj1 (orb_false_iff _ _) H))) K0).
+  destruct gs as [| |g]; cbn [get_non_null_no_default bind an_ok if_given].
+  - rewrite <- (list_ok_if _ _ _ _ _ (fun s => segment_ok Absent default_settings s eq_refl) K).
+    ok_norm. rewrite !an_or_nil. unfold no_unknown, no_unknown_keys. cbn [not_null is_null negb]. btauto.
+  - cbn. btauto.
+  - rewrite <- settings_ok. destruct (parse_settings g) as [st|e] eqn:Eg; cbn [bind is_ok].
+    + rewrite <- (list_ok_if _ _ _ _ _ (fun s => segment_ok (Value g) st s Eg) K).
+      ok_norm. rewrite !an_or_nil. unfold no_unknown, no_unknown_keys. cbn [not_null is_null negb]. btauto.
+    + btauto.
+Qed.
+
+(* ---------- consequences ---------- *)
+
+Lemma forallb_existsb {A} (f g : A -> bool) l :
+  (forall x, f x = true -> g x = false) -> forallb f l = true -> existsb g l = false.
+Proof.
+  intro H. induction l as [|x l IH]; [reflexivity|]. cbn [forallb existsb]. intro E.
+  apply andb_true_iff in E. destruct E as [E1 E2]. rewrite (H _ E1), (IH E2). reflexivity.
+Qed.
+
+Lemma required_str_not_null x : required_str x = true -> is_null x = false.
+Proof. destruct x; cbn; congruence. Qed.
+
+Ltac split_and H :=
+  repeat match type of H with
+  | _ && _ = true => let H' := fresh "V" in apply andb_true_iff in H; destruct H as [H H']
+  end.
+
+(* a valid document has no null plain string: acceptance of valid documents is unconditional *)
+Lemma valid_no_known d : valid d = true -> Known_C16_null_plain_string d = false.
+Proof.
+  unfold valid, Known_C16_null_plain_string. intro H. split_and H.
+  repeat (apply orb_false_iff; split).
+  - eapply forallb_existsb; [|eassumption]. intros s Hs. unfold valid_segment in Hs. split_and Hs.
+    apply required_str_not_null. assumption.
+  - eapply forallb_existsb; [|eassumption]. intros s Hs. unfold valid_class in Hs. split_and Hs.
+    apply required_str_not_null. assumption.
+  - eapply forallb_existsb; [|eassumption]. intros s Hs. unfold valid_assign in Hs. split_and Hs.
+    apply orb_false_iff. split; apply required_str_not_null; assumption.
+  - eapply forallb_existsb; [|eassumption]. intros s Hs. unfold valid_required in Hs. split_and Hs.
+    apply required_str_not_null. assumption.
+  - eapply forallb_existsb; [|eassumption]. intros s Hs. unfold valid_assert in Hs. split_and Hs.
+    apply orb_false_iff. split; apply required_str_not_null; assumption.
+Qed.
+
+Lemma valid_is_accepted d : valid d = true -> exists doc, parse d = Ok doc.
+Proof.
+  intro H. pose proof (doc_ok d (valid_no_known d H)) as E. rewrite H in E.
+  destruct (parse d) as [doc|e]; [exists doc; reflexivity | discriminate E].
+Qed.
+
+Lemma invalid_is_error d : valid d = false -> Known_C16_null_plain_string d = false -> exists e, parse d = Err e.
+Proof.
+  intros H K. pose proof (doc_ok d K) as E. rewrite H in E.
+  destruct (parse d) as [doc|e]; [discriminate E | exists e; reflexivity].
+Qed.
+
+Lemma accepted_is_valid d doc : parse d = Ok doc -> Known_C16_null_plain_string d = false -> valid d = true.
+Proof. intros H K. rewrite <- (doc_ok d K), H. reflexivity. Qed.
+
+(* ---------- the known deviation, witnessed ---------- *)
+
+Definition wit_conds : conds_serial := mkCondsSerial Absent Absent Absent Absent.
+Definition wit_file : file_serial :=
+  FileSerial [] (Value "a.o") Absent Absent Absent Absent Absent Absent Absent Absent wit_conds SKAbsent.
+Definition wit_segment (name : an string) : segment_serial :=
+  SegmentSerial [] name (Some [wit_file]) Absent Absent Absent Absent Absent Absent wit_conds
+    Absent Absent Absent Absent Absent Absent Absent Absent Absent Absent Absent Absent SKAbsent.
+(* segments: [ { name: null, files: [ { path: a.o } ] } ] *)
+Definition wit_null_name : document_serial :=
+  DocumentSerial [] Absent Absent (Some [wit_segment Null]) Absent Absent Absent Absent.
+
+Lemma refuted_null_plain_string :
+  exists sd, Known_C16_null_plain_string sd = true /\ valid sd = false /\ is_ok (parse sd) = true.
+Proof. exists wit_null_name. vm_compute. repeat split. Qed.
+
+(* ---------- which error: an unknown key at any of the nine levels is serde's error ---------- *)
+
+Lemma no_unknown_has_keys u : no_unknown u = true -> has_keys u = false.
+Proof. destruct u; cbn; congruence. Qed.
+
+Lemma serde_file_no_unknown : forall f, serde_ok_file f = true -> file_has_unknown f = false.
+Proof.
+  apply (file_serial_ind' (fun f => serde_ok_file f = true -> file_has_unknown f = false)).
+  intros u p k sf pa se lon so files d c kp IH. unfold all_sub in IH.
+  cbn [serde_ok_file file_has_unknown fs_unknown fs_keep fs_section_order fs_files]. intro H. split_and H.
+  rewrite (no_unknown_has_keys _ H). cbn [orb].
+  destruct files as [| |l]; try reflexivity. clear H V1 V0.
+  induction IH as [|x l Hx Hl IHl]; [reflexivity|].
+  apply andb_true_iff in V. destruct V as [Va Vb]. rewrite (Hx Va), (IHl Vb). reflexivity.
+Qed.
+
+Ltac use_forallb :=
+  erewrite forallb_existsb; [ | | eassumption ]; cbn [orb].
+
+Ltac no_unknown_from H := split_and H; apply no_unknown_has_keys; assumption.
+
+Lemma serde_segment_no_unknown s : serde_ok_segment s = true -> segment_has_unknown s = false.
+Proof.
+  unfold serde_ok_segment, segment_has_unknown. intro H. split_and H.
+  rewrite (no_unknown_has_keys _ H). cbn [orb].
+  destruct (ss_files s) as [l|]; [|discriminate]. cbn [opt_ok opt_list] in *.
+  use_forallb; [ | exact serde_file_no_unknown ].
+  destruct (ss_gp_info s) as [| |g]; try reflexivity.
+  match goal with V : an_ok serde_ok_gp _ = true |- _ => cbn [an_ok] in V; unfold serde_ok_gp in V;
+    apply no_unknown_has_keys; exact V end.
+Qed.
+
+Lemma serde_no_unknown d : serde_ok d = true -> has_unknown_key d = false.
+Proof.
+  unfold serde_ok, has_unknown_key. intro H. split_and H.
+  rewrite (no_unknown_has_keys _ H). cbn [orb].
+  repeat match goal with V : an_ok (forallb _) _ = true |- _ => rewrite an_ok_forallb in V end.
+  destruct (ds_segments d) as [l|]; [|discriminate]. cbn [opt_ok opt_list] in *.
+  assert (S : match ds_settings d with Value s => has_keys (sts_unknown s) | _ => false end = false).
+  { destruct (ds_settings d) as [| |g]; try reflexivity.
+    match goal with V : an_ok serde_ok_settings _ = true |- _ => cbn [an_ok] in V; unfold serde_ok_settings in V;
+      no_unknown_from V end. }
+  rewrite S. cbn [orb].
+  use_forallb; [ | intros c Hc; unfold serde_ok_class in Hc; no_unknown_from Hc ].
+  use_forallb; [ | exact serde_segment_no_unknown ].
+  use_forallb; [ | intros c Hc; unfold serde_ok_assign in Hc; no_unknown_from Hc ].
+  use_forallb; [ | intros c Hc; unfold serde_ok_required in Hc; no_unknown_from Hc ].
+  use_forallb; [ | intros c Hc; unfold serde_ok_assert in Hc; no_unknown_from Hc ].
+  reflexivity.
+Qed.
+
+Lemma unknown_key_is_yaml_error d : has_unknown_key d = true -> parse d = Err EYaml.
+Proof.
+  intro H. unfold parse. destruct (serde_ok d) eqn:E; [|reflexivity].
+  apply serde_no_unknown in E. congruence.
+Qed.
+
+(* ---------- which error: single-fault cases ---------- *)
+
+Lemma gnn_ok_val {A} (x : an A) n d : not_null x = true -> get_non_null x n d = Ok (an_or x d).
+Proof. destruct x; cbn; congruence. Qed.
+Lemma gnnnd_ok_val {A} (x : an A) n : not_null x = true -> get_non_null_no_default x n = Ok (an_opt x).
+Proof. destruct x; cbn; congruence. Qed.
+Lemma gon_val {A} (x : an A) d : get_optional_nullable x d = Ok (resolve_nullable x d).
+Proof. destruct x; reflexivity. Qed.
+Lemma combo_ok a b f1 f2 : negb (a && b) = true -> combo a b f1 f2 = Ok tt.
+Proof. unfold combo. destruct (a && b); cbn; congruence. Qed.
+
+(* every step whose condition is among the hypotheses is replaced by its value *)
+Ltac run_steps :=
+  repeat first
+    [ rewrite gon_val
+    | rewrite gnn_ok_val by assumption
+    | rewrite gnnnd_ok_val by assumption ];
+  cbn [bind];
+  repeat rewrite is_some_an_opt;
+  repeat (rewrite combo_ok by assumption);
+  cbn [bind get_non_null_no_default an_opt].
+
+(* d_path without target_path, everything else in `settings:` being fine *)
+Lemma d_path_without_target s :
+  valid_settings (sts_with_d_path s Absent) = true ->
+  has_value (sts_d_path s) = true -> has_value (sts_target_path s) = false ->
+  parse_settings s = Err (EMissingRequiredFieldCombo "target_path" "d_path").
+Proof.
+  destruct s. unfold valid_settings, sts_with_d_path, parse_settings. proj_goal. intros H Hd Ht. split_and H.
+  run_steps.
+  destruct sts_d_path; try discriminate Hd. destruct sts_target_path; try discriminate Ht; reflexivity.
+Qed.
+
+Lemma valid_files_parse l : forallb valid_file l = true -> exists files, map_res parse_file l = Ok files.
+Proof.
+  intro H. rewrite <- files_ok in H. apply andb_true_iff in H. destruct H as [_ H].
+  destruct (map_res parse_file l) as [v|e]; [exists v; reflexivity | discriminate H].
+Qed.
+
+Ltac split_all :=
+  repeat match goal with H : _ && _ = true |- _ => apply andb_true_iff in H; destruct H end.
+
+(* the common beginning of the segment cases: name, files *)
+Ltac segment_start H n fl :=
+  unfold valid_segment, ss_with_address, ss_with_gp_info in H; proj_ss H; rewrite at_most_one in H; split_all;
+  unfold parse_segment; proj_goal;
+  match goal with V : required_str n = true |- _ =>
+    destruct n as [| |n]; try discriminate V; unfold required_str, nonempty_str in V;
+    cbn [plain_str opt_str]; destruct (is_empty n); [discriminate V|]; cbn [bind] end;
+  destruct fl as [[|? ?]|]; try discriminate; cbn [opt_list] in *; cbn [bind];
+  match goal with V : forallb valid_file _ = true |- _ =>
+    let files := fresh "files" in let E := fresh "E" in
+    destruct (valid_files_parse _ V) as [files E]; rewrite E; cbn [bind] end.
+
+Ltac two_addresses H H1 H2 n fl fv fs fo vc :=
+  segment_start H n fl; proj_ss H1; proj_ss H2;
+  destruct fv, fs, fo, vc; cbn [has_value not_null is_null negb andb] in *; try congruence; reflexivity.
+
+Lemma two_addresses_vram_symbol st gs s :
+  valid_segment gs (ss_with_address s (ss_fixed_vram s) Absent (ss_follows_segment s) (ss_vram_class s)) = true ->
+  has_value (ss_fixed_vram s) = true -> has_value (ss_fixed_symbol s) = true ->
+  parse_segment st s = Err (EInvalidFieldCombo "fixed_vram" "fixed_symbol").
+Proof.
+  intros H H1 H2. destruct s as [u n fl fv fs fo vc dir gp c al nl sa ssa sea csa cea sssa ssea w fill sg kp].
+  two_addresses H H1 H2 n fl fv fs fo vc.
+Qed.
+
+Lemma two_addresses_vram_follows st gs s :
+  valid_segment gs (ss_with_address s (ss_fixed_vram s) (ss_fixed_symbol s) Absent (ss_vram_class s)) = true ->
+  has_value (ss_fixed_vram s) = true -> has_value (ss_follows_segment s) = true ->
+  parse_segment st s = Err (EInvalidFieldCombo "fixed_vram" "follows_segment").
+Proof.
+  intros H H1 H2. destruct s as [u n fl fv fs fo vc dir gp c al nl sa ssa sea csa cea sssa ssea w fill sg kp].
+  two_addresses H H1 H2 n fl fv fs fo vc.
+Qed.
+
+Lemma two_addresses_vram_class st gs s :
+  valid_segment gs (ss_with_address s (ss_fixed_vram s) (ss_fixed_symbol s) (ss_follows_segment s) Absent) = true ->
+  has_value (ss_fixed_vram s) = true -> has_value (ss_vram_class s) = true ->
+  parse_segment st s = Err (EInvalidFieldCombo "fixed_vram" "vram_class").
+Proof.
+  intros H H1 H2. destruct s as [u n fl fv fs fo vc dir gp c al nl sa ssa sea csa cea sssa ssea w fill sg kp].
+  two_addresses H H1 H2 n fl fv fs fo vc.
+Qed.
+
+Lemma two_addresses_symbol_follows st gs s :
+  valid_segment gs (ss_with_address s (ss_fixed_vram s) (ss_fixed_symbol s) Absent (ss_vram_class s)) = true ->
+  has_value (ss_fixed_symbol s) = true -> has_value (ss_follows_segment s) = true ->
+  parse_segment st s = Err (EInvalidFieldCombo "fixed_symbol" "follows_segment").
+Proof.
+  intros H H1 H2. destruct s as [u n fl fv fs fo vc dir gp c al nl sa ssa sea csa cea sssa ssea w fill sg kp].
+  two_addresses H H1 H2 n fl fv fs fo vc.
+Qed.
+
+Lemma two_addresses_symbol_class st gs s :
+  valid_segment gs (ss_with_address s (ss_fixed_vram s) (ss_fixed_symbol s) (ss_follows_segment s) Absent) = true ->
+  has_value (ss_fixed_symbol s) = true -> has_value (ss_vram_class s) = true ->
+  parse_segment st s = Err (EInvalidFieldCombo "fixed_symbol" "vram_class").
+Proof.
+  intros H H1 H2. destruct s as [u n fl fv fs fo vc dir gp c al nl sa ssa sea csa cea sssa ssea w fill sg kp].
+  two_addresses H H1 H2 n fl fv fs fo vc.
+Qed.
+
+Lemma two_addresses_follows_class st gs s :
+  valid_segment gs (ss_with_address s (ss_fixed_vram s) (ss_fixed_symbol s) (ss_follows_segment s) Absent) = true ->
+  has_value (ss_follows_segment s) = true -> has_value (ss_vram_class s) = true ->
+  parse_segment st s = Err (EInvalidFieldCombo "follows_segment" "vram_class").
+Proof.
+  intros H H1 H2. destruct s as [u n fl fv fs fo vc dir gp c al nl sa ssa sea csa cea sssa ssea w fill sg kp].
+  two_addresses H H1 H2 n fl fv fs fo vc.
+Qed.
+
+(* empty name, empty files list, empty segments list *)
+Lemma segment_empty_name st s : ss_name s = Value "" -> parse_segment st s = Err (EEmptyValue "name").
+Proof. intro E. unfold parse_segment. rewrite E. reflexivity. Qed.
+
+Lemma segment_empty_files st s :
+  required_str (ss_name s) = true -> ss_files s = Some [] -> parse_segment st s = Err (EEmptyValue "files").
+Proof.
+  intros Hn E. unfold parse_segment. rewrite E. destruct (ss_name s) as [| |n]; try discriminate Hn.
+  unfold required_str, nonempty_str in Hn. cbn [plain_str opt_str]. destruct (is_empty n); [discriminate Hn | reflexivity].
+Qed.
+
+Lemma empty_segments d :
+  serde_ok d = true -> not_null (ds_settings d) = true -> if_given valid_settings (ds_settings d) = true ->
+  ds_segments d = Some [] -> parse d = Err (EEmptyValue "segments").
+Proof.
+  intros S N V E. unfold parse. rewrite S. unfold unserialize_document. rewrite E.
+  destruct (ds_settings d) as [| |g]; [reflexivity | discriminate N | ].
+  cbn [if_given] in V. rewrite <- settings_ok in V. apply andb_true_iff in V. destruct V as [_ V].
+  cbn [get_non_null_no_default bind]. destruct (parse_settings g); [reflexivity | discriminate V].
+Qed.
+
+(* a vram class without any placement field *)
+Lemma class_without_placement c :
+  required_str (vs_name c) = true ->
+  not_null (vs_fixed_vram c) = true -> not_null (vs_fixed_symbol c) = true -> not_null (vs_follows_classes c) = true ->
+  count_true [has_value (vs_fixed_vram c); has_value (vs_fixed_symbol c); nonempty_list (an_list (vs_follows_classes c))] = 0 ->
+  parse_class c = Err (EMissingAnyOfOptionalFields "'fixed_vram', 'fixed_symbol', 'follows_classes'").
+Proof.
+  destruct c as [u n fv fs fo k]. cbn [vs_name vs_fixed_vram vs_fixed_symbol vs_follows_classes]. intros Hn H1 H2 H3 H0.
+  unfold parse_class. cbn [vs_name vs_fixed_vram vs_fixed_symbol vs_follows_classes vs_keep].
+  destruct n as [| |n]; try discriminate Hn. unfold required_str, nonempty_str in Hn. cbn [plain_str opt_str].
+  destruct (is_empty n); [discriminate Hn|]. cbn [bind].
+  destruct fv, fs, fo as [| |[|x l]]; cbn in *; try congruence; try discriminate.
+Qed.
+
+(* gp_info on a segment while the settings hardcode _gp *)
+Lemma gp_info_with_hardcoded st gs s g :
+  valid_segment gs (ss_with_gp_info s Absent) = true -> ss_gp_info s = Value g -> valid_gp g = true ->
+  is_some (hardcoded_gp_value st) = true ->
+  parse_segment st s = Err (EInvalidFieldCombo "segment.gp_info" "settings.hardcoded_gp_value").
+Proof.
+  intros H Eg Vg Hh. destruct s as [u n fl fv fs fo vc dir gp c al nl sa ssa sea csa cea sssa ssea w fill sg kp].
+  cbn [ss_gp_info] in Eg. subst gp.
+  segment_start H n fl. run_steps.
+  rewrite <- gp_ok in Vg. apply andb_true_iff in Vg. destruct Vg as [_ Vg].
+  destruct (parse_gp g) as [g'|e]; [|discriminate Vg]. cbn [bind is_some]. rewrite Hh. reflexivity.
+Qed.
+
+(* ---------- example inputs (used by the Examples of Properties/C16.v) ---------- *)
+
+Definition ex_conds (inc_any : an pairs) : conds_serial := mkCondsSerial inc_any Absent Absent Absent.
+Definition ex_object (unk : list string) (path : string) (section : an string) (inc_any : an pairs) : file_serial :=
+  FileSerial unk (Value path) Absent Absent Absent section Absent Absent Absent Absent (ex_conds inc_any) SKAbsent.
+Definition ex_pad (amount : an N) : file_serial :=
+  FileSerial [] Absent (Value KPad) Absent amount (Value ".text") Absent Absent Absent Absent (ex_conds Absent) SKAbsent.
+Definition ex_offset : file_serial :=
+  FileSerial [] Absent (Value KLinkerOffset) Absent Absent (Value ".data") (Value "libs_start") Absent Absent Absent
+    (ex_conds Absent) SKAbsent.
+Definition ex_archive : file_serial :=
+  FileSerial [] (Value "lib/libmus.a") Absent (Value "aud_samples.o") Absent Absent Absent
+    (Value [(".data", ".rodata")]) Absent Absent (ex_conds Absent) (SKList [".text"]).
+Definition ex_group (unk : list string) : file_serial :=
+  FileSerial [] Absent (Value KGroup) Absent Absent Absent Absent Absent
+    (Value [ex_offset; ex_archive; ex_object unk "player.o" Absent Absent]) (Value "src/libmus")
+    (ex_conds Absent) (SKBool true).
+
+(* a rich document with ten places where a single fault can be injected:
+   settings:  { base_path: build, hardcoded_gp_value: <hgp>, d_path: game.d, target_path: <target>, alloc_sections: <alloc>,
+                sections_start_alignment: { .bss: 8 } }
+   vram_classes: [ { name: overlays, fixed_vram: 0x80200000, fixed_symbol: <class_symbol> } ]
+   segments:
+     - name: boot, fixed_vram: 0x80000400, fixed_symbol: <seg_symbol>, gp_info: { section: <gp_section> }
+       files: [ { path: src/boot.o, section: <obj_section>, include_if_any: <inc_any> },
+                { kind: pad, pad_amount: <pad_amount>, section: .text },
+                { kind: group, dir: src/libmus, keep_sections: true,
+                  files: [ linker_offset, archive with subfile and section_order, { path: player.o, <unk> } ] } ]
+     - name: ovl, vram_class: overlays, subalign: null, files: [ { path: src/ovl.o } ]
+   entry: start
+   symbol_assignments: [ { name: stack_top, value: "0x80400000", provide: true } ]
+   required_symbols: [ { name: main } ]
+   asserts: [ { check: "boot_VRAM_END <= 0x80400000", error_message: "boot is too big" } ]                          *)
+Definition ex_doc (unk : list string) (pad_amount : an N) (obj_section seg_symbol class_symbol : an string)
+    (hgp : an N) (gp_section target : an string) (inc_any : an pairs) (alloc : an (list string))
+    (segments_tail : bool) : document_serial :=
+  let st := SettingsSerial [] (Value "build") Absent hgp (Value "game.d") target
+              Absent Absent Absent Absent Absent Absent Absent Absent Absent Absent
+              alloc Absent Absent Absent Absent Absent Absent
+              (Value [(".bss", 8%N)]) Absent Absent Absent Absent in
+  let boot := SegmentSerial [] (Value "boot")
+                (Some [ex_object [] "src/boot.o" obj_section inc_any; ex_pad pad_amount; ex_group unk])
+                (Value 2147484672%N) seg_symbol Absent Absent Absent
+                (Value (GpSerial [] gp_section Absent Absent Absent (ex_conds Absent))) (ex_conds Absent)
+                Absent Absent Absent Absent Absent Absent Absent Absent Absent Absent Absent Absent SKAbsent in
+  let ovl := SegmentSerial [] (Value "ovl") (Some [ex_object [] "src/ovl.o" Absent Absent])
+                Absent Absent Absent (Value "overlays") Absent Absent (ex_conds Absent)
+                Absent Absent Null Absent Absent Absent Absent Absent Absent Absent Absent Absent SKAbsent in
+  DocumentSerial []
+    (Value st)
+    (Value [ClassSerial [] (Value "overlays") (Value 2149580800%N) class_symbol Absent SKAbsent])
+    (Some (if segments_tail then [boot; ovl] else []))
+    (Value "start")
+    (Value [AssignSerial [] (Value "stack_top") (Value "0x80400000") (Value true) Absent (ex_conds Absent)])
+    (Value [RequiredSerial [] (Value "main") (ex_conds Absent)])
+    (Value [AssertSerial [] (Value "boot_VRAM_END <= 0x80400000") (Value "boot is too big") (ex_conds Absent)]).
+
+(* the fault-free instance *)
+Definition ex_doc_ok : document_serial :=
+  ex_doc [] (Value 16%N) Absent Absent Absent Absent (Value ".sdata") (Value "build/game.elf")
+         (Value [("version", "us")]) Absent true.
+
+(* a single-fault mutant: invalid, and rejected with the stated error *)
+Definition is_mutant_rejected (sd : document_serial) (e : err) : Prop := valid sd = false /\ parse sd = Err e.
